@@ -20,16 +20,18 @@ open Driver AM AM.AList AM.Nflog AM.Dedup AM.Cluster
 structure St where
   cfg : Cfg := { key := "g:r/fake/0", repeatI := 0, retention := 0, sendResolved := true }
   n : Nat := 1
-  cs : CState := AM.Cluster.init
+  k : Nat := 1                               -- integrations of the receiver
+  css : List CState := [AM.Cluster.init]     -- one cluster model per integration (distinct log keys)
   -- current op
   firing : List Nat := []
   resolved : List Nat := []
   acc : List Bool := []
   healthy : Bool := false
   roundSends : Nat := 0
+  roundSends1 : Nat := 0
   inRound : Bool := false
-  pending : List (Nat × Int × String) := []     -- observed sends not yet matched to a `done`
-  implSends : List (Nat × Int × List Nat) := [] -- every send the implementation made: inst, wall, firing
+  pending : List (Nat × Nat × Int × String) := []     -- observed sends (inst, integration, wall, text) not yet matched to a `done`
+  implSends : List (Nat × Nat × Int × List Nat) := [] -- every send the implementation made: inst, integration, wall, firing
   implEntries : List String := []               -- implementation's entries after the previous op
   gcInst : Option (Nat × Int) := none
 
@@ -48,8 +50,15 @@ def parseEntry (k : String) (s : String) : Option Entry :=
   | [ts, exp, f, r] => some { key := k, ts := toInt! ts, exp := toInt! exp, firing := natList f, resolved := natList r, data := "-" }
   | _ => none
 
+def cfgK (σ : St) (k : Nat) : Cfg := { σ.cfg with key := s!"g:r/fake/{k}" }
+def csK (σ : St) (k : Nat) : CState := σ.css.getD k AM.Cluster.init
+def setCs (σ : St) (k : Nat) (c : CState) : St := { σ with css := σ.css.set k c }
+
+def entryOfInst (σ : St) (i : Nat) : String :=
+  "|".intercalate ((List.range σ.k).map fun k => showEntry (query ((csK σ k).logs i) (cfgK σ k).key))
+
 def entries (σ : St) : String :=
-  ";".intercalate ((List.range σ.n).map fun i => showEntry (query (σ.cs.logs i) σ.cfg.key))
+  ";".intercalate ((List.range σ.n).map fun i => entryOfInst σ i)
 
 def parseAlerts (s : String) : List Nat × List Nat :=
   (splitList "," s).foldl (fun (acc : List Nat × List Nat) a =>
@@ -76,69 +85,84 @@ def step (σ : St) (op obs : List String) : St × List Msg :=
       | [] => true
       | e :: rest => rest.all (· = e)
     let healthy : Bool := present && offDiagOk && accs.all id && decide (spread ≤ σ.cfg.repeatI) && converged
-    ({ σ with firing := f, resolved := r, acc := accs, healthy, roundSends := 0, inRound := true, pending := [], gcInst := none },
+    ({ σ with firing := f, resolved := r, acc := accs, healthy, roundSends := 0, roundSends1 := 0, inRound := true, pending := [], gcInst := none },
       [.tag (if healthy then "round:healthy" else "round:faulty")] ++ (if σ.n > 1 then [.tag "round:multi"] else []))
   | ["gc", t, i], _ => ({ σ with inRound := false, gcInst := some (toNat! i, toInt! t) }, [])
   | ["crash", _t, i, keep], _ =>
-    ({ σ with cs := AM.Cluster.step σ.cfg σ.cs (.crash (toNat! i) (keep = "1")), inRound := false, gcInst := none },
+    ({ σ with css := (List.range σ.k).map (fun k => AM.Cluster.step (cfgK σ k) (csK σ k) (.crash (toNat! i) (keep = "1"))), inRound := false, gcInst := none },
       [.tag (if keep = "1" then "crash:snapshot" else "crash:empty")])
   | ["redeliver", _, _, _], _ => ({ σ with inRound := false, gcInst := none }, [.tag "redeliver"])
-  | ["ev", wall, "sent", i, text], _ =>
-    let i := toNat! i; let wall := toInt! wall
+  | ["ev", wall, "sent", i, k, text], _ =>
+    let i := toNat! i; let k := toNat! k; let wall := toInt! wall
     let f := natList ((text.splitOn "/").getD 0 "-")
-    ({ σ with pending := σ.pending ++ [(i, wall, text)], implSends := (i, wall, f) :: σ.implSends, roundSends := σ.roundSends + 1 }, [])
+    ({ σ with pending := σ.pending ++ [(i, k, wall, text)], implSends := (i, k, wall, f) :: σ.implSends,
+              roundSends := if k = 0 then σ.roundSends + 1 else σ.roundSends,
+              roundSends1 := if k = 1 then σ.roundSends1 + 1 else σ.roundSends1 }, [])
   | ["ev", wall, "done", i, tick, res, ent], _ =>
     let i := toNat! i; let wall := toInt! wall; let tick := toInt! tick
-    let fl : Flush := { tick, wall, firing := σ.firing, resolved := σ.resolved, accept := σ.acc.getD i true }
-    let o := flushStep σ.cfg (σ.cs.logs i) fl
-    let cs' := AM.Cluster.step σ.cfg σ.cs (.flush i fl)
-    let mSent := match o.sent with
-      | none => "none"
-      | some n => s!"{showNatList (sortNat n.firing)}/{showNatList (sortNat n.resolved)}"
-    let obsSent := σ.pending.find? (·.1 = i)
-    let iSent := match obsSent with | some (_, _, t) => t | none => "none"
-    -- C08 at_least_once on the implementation's own sends
-    let pfLost := if σ.acc.getD i true then
-        σ.firing.foldl (fun acc x =>
-          let here : Bool := match obsSent with | some (_, _, t) => (natList ((t.splitOn "/").getD 0 "-")).contains x | none => false
-          let earlier : Bool := σ.implSends.any fun (_, w, f) => f.contains x && decide (tick ≤ w + σ.cfg.repeatI)
-          if here || earlier then acc else
-            acc ++ [Msg.propfail "at_least_once" "lost" s!"instance={i} alert={x} tick={tick} no instance has notified it within repeat_interval"]) []
-      else []
-    let σ' := { σ with cs := cs', pending := σ.pending.filter (·.1 ≠ i) }
-    (σ', expectEq s!"done.sent[{i}]" mSent iSent ++ expectEq s!"done.res[{i}]" (if o.ok then "ok" else "err") res
-        ++ expectEq s!"done.entry[{i}]" (showEntry (query (cs'.logs i) σ.cfg.key)) ent ++ pfLost
-        ++ [.tag s!"path:{repr (path σ.cfg (σ.cs.logs i) fl)}"])
-  | ["ev", wall, "deliver", _src, dst, ent], _ =>
-    match parseEntry σ.cfg.key ent with
+    let init : St × List Msg × Bool := (σ, [], true)
+    let (σ', msgs, okAll) := (List.range σ.k).foldl (fun (acc3 : St × List Msg × Bool) k =>
+      let (σa, msgs, okAll) := acc3
+      let c := cfgK σ k
+      let cs := csK σa k
+      let fl : Flush := { tick, wall, firing := σ.firing, resolved := σ.resolved, accept := σ.acc.getD (i * σ.k + k) true }
+      let o := flushStep c (cs.logs i) fl
+      let cs' := AM.Cluster.step c cs (.flush i fl)
+      let mSent := match o.sent with
+        | none => "none"
+        | some n => s!"{showNatList (sortNat n.firing)}/{showNatList (sortNat n.resolved)}"
+      let obsSent := σ.pending.find? (fun p => p.1 = i ∧ p.2.1 = k)
+      let iSent := match obsSent with | some (_, _, _, t) => t | none => "none"
+      -- C08 at_least_once on the implementation's own sends
+      let pfLost := if fl.accept then
+          σ.firing.foldl (fun acc x =>
+            let here : Bool := match obsSent with | some (_, _, _, t) => (natList ((t.splitOn "/").getD 0 "-")).contains x | none => false
+            let earlier : Bool := σ.implSends.any fun (_, k', w, f) => k' == k && f.contains x && decide (tick ≤ w + σ.cfg.repeatI)
+            if here || earlier then acc else
+              acc ++ [Msg.propfail "at_least_once" "lost" s!"instance={i} integration={k} alert={x} tick={tick} no instance has notified it within repeat_interval"]) []
+        else []
+      (setCs σa k cs', msgs ++ expectEq s!"done.sent[{i}.{k}]" mSent iSent ++ pfLost
+          ++ [.tag s!"path:{repr (path c (cs.logs i) fl)}"], okAll && o.ok)) init
+    let σ'' := { σ' with pending := σ.pending.filter (·.1 ≠ i) }
+    (σ'', msgs ++ expectEq s!"done.res[{i}]" (if okAll then "ok" else "err") res
+        ++ expectEq s!"done.entry[{i}]" (entryOfInst σ'' i) ent
+        ++ (if (σ.firing.length + σ.resolved.length) ≥ 60 then [.tag "round:oversized-entry"] else []))
+  | ["ev", wall, "deliver", _src, dst, k, ent], _ =>
+    let k := toNat! k
+    let c := cfgK σ k
+    match parseEntry c.key ent with
     | none => (σ, [.diff "deliver.entry" "entry" ent])
     | some e =>
-      let known := σ.cs.bcast.contains e
-      let before := query (σ.cs.logs (toNat! dst)) σ.cfg.key
-      let cs' := AM.Cluster.step σ.cfg σ.cs (.deliver e (toNat! dst) (toInt! wall))
-      let after := query (cs'.logs (toNat! dst)) σ.cfg.key
-      ({ σ with cs := cs' }, (if known then [] else [Msg.diff "deliver.unknown-entry" "broadcast" ent])
+      let cs := csK σ k
+      let known := cs.bcast.contains e
+      let before := query (cs.logs (toNat! dst)) c.key
+      let cs' := AM.Cluster.step c cs (.deliver e (toNat! dst) (toInt! wall))
+      let after := query (cs'.logs (toNat! dst)) c.key
+      (setCs σ k cs', (if known then [] else [Msg.diff "deliver.unknown-entry" "broadcast" ent])
         ++ [.tag (if after = before then "deliver:inert" else "deliver:merged")])
   | ["end"], _ =>
     let ents := obs.getLast?.getD ""
     let σ1 := match σ.gcInst with
-      | some (i, t) => { σ with cs := AM.Cluster.step σ.cfg σ.cs (.gc i t) }
+      | some (i, t) => { σ with css := (List.range σ.k).map (fun k => AM.Cluster.step (cfgK σ k) (csK σ k) (.gc i t)) }
       | none => σ
     let mGc := match σ.gcInst, obs with
-      | some (i, t), [n, _] => expectEq "gc.n" (toString (gc t (σ.cs.logs i)).2) n
+      | some (i, t), [n, _] =>
+        -- one log per instance holds the entries of all integrations
+        expectEq "gc.n" (toString ((List.range σ.k).foldl (fun a k => a + (gc t ((csK σ k).logs i)).2) 0)) n
       | _, _ => []
-    let implL := ents.splitOn ";"
+    let implL := (ents.splitOn ";").foldl (fun acc x => acc ++ x.splitOn "|") []
+    let implPerInst := ents.splitOn ";"
     -- entry_implies_sent on the implementation's entries and sends
     let pfPhantom := implL.foldl (fun acc s =>
       match parseEntry σ.cfg.key s with
-      | some e => if e.firing.isEmpty || σ.implSends.any (fun (_, w, f) => w == e.ts && sortNat f == sortNat e.firing) then acc
+      | some e => if e.firing.isEmpty || σ.implSends.any (fun (_, _, w, f) => w == e.ts && sortNat f == sortNat e.firing) then acc
                   else acc ++ [Msg.propfail "entry_implies_sent" "phantom-entry" s!"entry={s} has no matching send"]
       | none => acc) []
-    let pfDup := if σ.inRound ∧ σ.healthy ∧ σ.roundSends > 1 then
-      [Msg.propfail "healthy_no_duplicate" "duplicate" s!"sends={σ.roundSends} in one healthy round firing={showNatList σ.firing}"] else []
+    let pfDup := if σ.inRound ∧ σ.healthy ∧ (σ.roundSends > 1 ∨ σ.roundSends1 > 1) then
+      [Msg.propfail "healthy_no_duplicate" "duplicate" s!"sends={σ.roundSends}/{σ.roundSends1} of one integration in one healthy round firing={showNatList σ.firing}"] else []
     let tags := (if σ.inRound ∧ σ.healthy ∧ σ.n > 1 ∧ σ.roundSends = 1 then [Msg.tag "healthy:single-send"] else [])
       ++ (if σ.inRound ∧ !σ.healthy ∧ σ.roundSends > 1 then [Msg.tag "faulty:duplicate-send"] else [])
-    ({ σ1 with implEntries := implL, inRound := false, gcInst := none },
+    ({ σ1 with implEntries := implPerInst, inRound := false, gcInst := none },
       mGc ++ expectEq "end.entries" (entries σ1) ents ++ pfPhantom ++ pfDup ++ tags)
   | _, _ => (σ, [.diff "parse" "?" (" ".intercalate op)])
 
@@ -147,7 +171,7 @@ def engine : Engine St where
     let pos := ((kv hdr "pos").getD "0").splitOn ","
     { cfg := { key := "g:r/fake/0", repeatI := kvInt hdr "repeat" 0, retention := kvInt hdr "retention" 0,
                sendResolved := kv hdr "sr" = some "1" },
-      n := pos.length }
+      n := pos.length, k := kvNat hdr "k" 1, css := (List.range (kvNat hdr "k" 1)).map fun _ => AM.Cluster.init }
   step := step
 
 end Driver.Cluster
